@@ -27,7 +27,7 @@ from ..report import Ctx
 from ..selftest import Mutant
 
 PROP = "C13"
-TECHNIQUE = "static analysis: handler analysis of every user-call site (try/except, handle_error arguments) + noreturn CFG of handle_error + broad-handler swallow analysis via effects + snapshot def-use + handler-cannot-raise rule + thread release on every __exit__ path (must-pass) + exception coverage of environment calls in snapshot default factories + iterator-protocol rule (user-reaching callables resolved through parameters, partials and record fields) + narrow-handler rule around user-reaching calls + future discrimination by class + nothing catches Future.result() + executor results consumed + by-value snapshot serialiser + unabridged kwargs rendering + copy-on-getstate + caught exception left untouched + subclass attribute parity for error_snapshot + ExitStack-managed pools"
+TECHNIQUE = "static analysis: handler analysis of every user-call site (try/except, handle_error arguments) + noreturn CFG of handle_error + broad-handler swallow analysis via effects + snapshot def-use + handler-cannot-raise rule + thread release on every __exit__ path (must-pass) + exception coverage of environment calls in snapshot default factories + iterator-protocol rule (user-reaching callables resolved through parameters, partials and record fields) + narrow-handler rule around user-reaching calls + future discrimination by class + nothing catches Future.result() + executor results consumed + by-value snapshot serialiser + unabridged kwargs rendering + copy-on-getstate + caught exception left untouched + subclass attribute parity for error_snapshot + ExitStack-managed pools + higher-order user-call effect (a callable parameter that call sites bind to a function running user code)"
 EXPLANATION = (
     "Static analysis over the resolved call graph: all call sites of PipeFunc.__call__ in the execution modules are "
     "located and their enclosing try/except shape and argument identity are checked; handle_error's CFG is checked to "
